@@ -36,6 +36,29 @@ Proof.
 Qed.
 Print Assumptions entry_sound.
 
+(* entry_sound at EVERY go/ast kind, also those outside allTypes (Symbol at IndexListExpr): for patterns
+   without a start-anywhere alternative, and for any such alternative inside an Or whatever its siblings are. *)
+Theorem entry_sound_tight :
+  forall orc af ty fs fuel p s v sigma,
+    unwrap (cfg_unwrap_right gen_cfg) (VNode ty fs) = UNo ->
+    known_pat_b p = true -> tight gen_tables p = true ->
+    ms gen_cfg orc af fuel p (VNode ty fs) s = RDone true v sigma ->
+    In ty (entry_kinds gen_tables p).
+Proof.
+  exact (fun orc af ty fs fuel p s v sigma Hu =>
+           entry_sound_tight_gen gen_tables c08_tables_ok gen_cfg orc af ty fs Hu fuel p s v sigma).
+Qed.
+Print Assumptions entry_sound_tight.
+
+Theorem entry_sound_alt :
+  forall orc af ty fs ps q,
+    unwrap (cfg_unwrap_right gen_cfg) (VNode ty fs) = UNo ->
+    In q ps -> known_pat_b q = true -> tight gen_tables q = true ->
+    forall fuel s v sigma, ms gen_cfg orc af fuel q (VNode ty fs) s = RDone true v sigma ->
+      In ty (entry_kinds gen_tables (POr ps)).
+Proof. exact (entry_sound_alt_gen gen_tables c08_tables_ok gen_cfg). Qed.
+Print Assumptions entry_sound_alt.
+
 (* the wrapper copies of a match: on a transparent wrapper the matcher does what it does on the wrapped node *)
 Theorem wrapper_transparent :
   forall orc af fuel p n n' s,
